@@ -47,19 +47,30 @@ def target(src, defs, mode, extra=()):
     return out, cmd
 
 def build_all(targets, jobs=16):
-    """targets: list of (src, defs, mode[, extra]). Returns dict index-> (binary or None, error text, seconds)"""
+    """targets: list of (src, defs, mode[, extra]). Returns list (binary or None, error text, seconds) aligned with targets.
+    Identical targets are built once."""
+    import threading, uuid
     os.makedirs(os.path.join(WORK, 'bin'), exist_ok=True)
-    def one(t):
+    uniq = {}
+    for t in targets:
         out, cmd = target(*t)
-        if os.path.exists(out): return (out, '', 0.0)
+        uniq.setdefault(out, cmd)
+    results = {}
+    def one(item):
+        out, cmd = item
+        if os.path.exists(out): return out, (out, '', 0.0)
         t0 = time.time()
-        r = subprocess.run(cmd[:-1] + [out + '.tmp'], capture_output=True, text=True)
+        tmp = out + '.%s.tmp' % uuid.uuid4().hex[:8]
+        r = subprocess.run(cmd[:-1] + [tmp], capture_output=True, text=True)
         if r.returncode != 0:
-            return (None, r.stderr[-6000:], time.time() - t0)
-        os.replace(out + '.tmp', out)
-        return (out, '', time.time() - t0)
+            try: os.unlink(tmp)
+            except OSError: pass
+            return out, (None, r.stderr[-6000:], time.time() - t0)
+        os.replace(tmp, out)
+        return out, (out, '', time.time() - t0)
     with ThreadPoolExecutor(jobs) as ex:
-        return list(ex.map(one, targets))
+        for out, r in ex.map(one, list(uniq.items())): results[out] = r
+    return [results[target(*t)[0]] for t in targets]
 
 def run_harness(binary, outfile, args=(), timeout=600):
     r = subprocess.run([binary, outfile] + list(args), capture_output=True, text=True, timeout=timeout)
